@@ -865,10 +865,14 @@ def gen_plan(rng, v):
                 q = rng.choice([1, 4, 7, 10])
                 if sum(1 for m in months if q <= m < q + 3) < 3:
                     ps.append(P("month", y, q, size=3))
-            if rng.random() < 0.6:
+            r = rng.random()
+            if r < 0.5:
                 ps.append(rng.choice([P("year", y), P("month", y, 1, size=12)]))
-            elif rng.random() < 0.3:
+            elif r < 0.65:
                 ps.append(P("year", y, rng.randint(2, 12)))     # rolling year
+            elif r < 0.85 and not any(p.size == 3 and p.m == 10 for p in ps):
+                # ten or eleven months from January: "200_10" sorts before "200_3" as text
+                ps.append(P("month", y, 1, size=rng.choice([10, 11])))
         return ps
     if u == "year":
         ps = [P("year", yy) for yy in rng.sample([2016, 2017, 2018, 2019, 2020, 2021], rng.randint(1, 3))]
@@ -1380,7 +1384,7 @@ def generate(rng, tier):
     def sysname():
         return rng.choice(["A", "A", "B"])
     # valid documents, all shapes
-    for i in range(150 * scale):
+    for i in range(220 * scale):
         S = SYSTEMS[sysname()]
         shape = rng.choice(["full", "full", "short", "vars"])
         if shape == "vars":
@@ -1390,7 +1394,7 @@ def generate(rng, tier):
         cases.append({"sys": S.name, "kind": "valid", "shape": shape_of(S, doc) if doc else shape,
                       "docs": [doc], "mut": None, "meta": {}})
     # spelling twins
-    for i in range(120 * scale):
+    for i in range(150 * scale):
         S = SYSTEMS[sysname()]
         shape = rng.choice(["full", "full", "short", "vars"])
         if shape == "vars":
@@ -1404,7 +1408,7 @@ def generate(rng, tier):
         cases.append({"sys": S.name, "kind": "spelling", "shape": shape, "docs": docs, "mut": None, "meta": {}})
     # axes
     n_axes = 0
-    while n_axes < 60 * scale:
+    while n_axes < 70 * scale:
         S = SYSTEMS[sysname()]
         c = gen_axes_case(rng, S)
         if c is not None:
@@ -1413,7 +1417,7 @@ def generate(rng, tier):
     # mutants
     n_mut = 0
     guard = 0
-    while n_mut < 330 * scale and guard < 5000 * scale:
+    while n_mut < 400 * scale and guard < 6000 * scale:
         guard += 1
         S = SYSTEMS[sysname()]
         if rng.random() < 0.2:
